@@ -52,10 +52,16 @@ def run_scenario(sc):
 
     def go(_):
         ia, p = build_objects(sc)
-        ba = BuildAssembly("o", default_gap=Gap(200, "scaffold"))
+        ba = BuildAssembly("o", default_gap=Gap(200, "scaffold"), autosome_prefix=sc.get("prefix") or "SUPER_")
         ba.remap_to_input_assembly(p, ia)
         out = ba.assemblies_with_scaffolds_fused()
-        return out, ba.assembly_stats
+        csv = []
+        if "prefix" in sc:
+            for key, asm in out.items():
+                txt = ba.assembly_stats.chromosome_name_csv(asm) if asm.curated else None
+                if txt:
+                    csv.append({"asm": key or "", "lines": [ln.split(",") for ln in txt.splitlines()]})
+        return out, ba.assembly_stats, csv
     r = C.guarded(go, None, 20.0)
     if r[0] == "hang":
         t["status"] = "hang"
@@ -63,7 +69,9 @@ def run_scenario(sc):
         t["status"] = "exc:" + r[1]
         t["msg"] = r[2][:160]
     else:
-        out, st = r[1]
+        out, st, csv = r[1]
+        if "prefix" in sc:
+            t.update(prefix=sc["prefix"], nhaps=sc["nhaps"], csv=csv)
         for key, asm in out.items():
             for s in asm.scaffolds:
                 t["out"].append({"asm": key or "", "asm_lc": (key or "").lower(), "name": s.name, "rank": s.rank or 0, "tag": s.tag or "", "hap": s.haplotype or "",
